@@ -5,7 +5,8 @@ FLOWS = ["c31_batch", "c31_snapshot", "c31_state", "c31_two"]
 
 
 class C31(vlib.Spec):
-    model_vo = ["theories/HydroB/ModelSlice.vo", "theories/HydroB/SimSlice.vo"]
+    model_vo = ["theories/HydroB/ModelSlice.vo", "theories/HydroB/SimSlice.vo", "theories/HydroB/XLoc.vo",
+                "theories/HydroB/ModelRef.vo"]
     props_vo = "theories/Props/C31.vo"
     theorems = ["C31_batches_partition", "C31_production_batches", "C31_model_snapshots_monotone",
                 "C31_model_hooks_same_slice", "C31_state_carries", "C31_sim_batches_partition",
@@ -13,8 +14,9 @@ class C31(vlib.Spec):
                 "C31_sim_snapshots_monotone", "C31_sim_keyed_snapshots_monotone", "C31_sim_hooks_same_tick",
                 "C31_sim_slice_columns"]
     crate, group, binary = "h_hydro_b", "hydro", "h_hydro_b"
-    imports = ("From Coq Require Import List NArith.\nFrom HV Require Import Sim.Model HydroB.ModelSlice HydroB.SimSlice.\n"
-               "Import ListNotations.")
+    imports = ("From Coq Require Import List String NArith.\nFrom HV Require Import Sim.Model HydroB.ModelSlice HydroB.SimSlice HydroB.Model HydroB.GenOps "
+               "HydroB.XPartition HydroB.XLoc HydroB.ModelRef.\n"
+               "Import ListNotations.\nOpen Scope string_scope.")
     level = "proof"
     explanation = (
         "Coq theorems for ALL arrival/decision scripts, over (1) engine Sim's model of the REAL simulator hooks and "
@@ -53,6 +55,13 @@ class C31(vlib.Spec):
                 for t, y in zip(ticks, b):
                     t["b"] = y
             cases.append({"flow": flow, "ticks": ticks})
+        # bounded top-level collections of every kind sliced with an unbounded trigger (several
+        # ticks): the emitted graph (which kinds `batch` replays) and the per-slice observations
+        for f in sorted(hydrob.BOUNDED_SLICES):
+            cases.append({"k": "dump", "flow": f})
+            for _ in range(3 if tier == "quick" else 30):
+                nt = rng.range(2, 6)
+                cases.append({"flow": f, "ticks": [{"a": x} for x in hydrob.random_partition(rng, rng.range(0, 8), nt)]})
         # slices on the real simulator hooks (harness h_sim): 1..4 hooks of random kinds
         for _ in range(n // 2):
             kinds = [rng.choice(hydrob.SIM_KINDS) for _ in range(rng.range(1, 4))]
@@ -62,6 +71,13 @@ class C31(vlib.Spec):
         return cases
 
     def to_coq(self, case, res):
+        if case.get("k") == "dump":
+            if "ir" not in res:
+                return 1
+            try:
+                return hydrob.c41_term(res)[0]
+            except hydrob.Unsupported:
+                return 1
         if case.get("k") == "echo":
             return hydrob.c31_sim_term(case["sim"], hydrob.sim_result(self.ctx, case))
         return hydrob.c31_term(case, res)
@@ -72,6 +88,8 @@ class C31(vlib.Spec):
         return {"case": case, "impl": res}
 
     def shrink(self, case):
+        if case.get("k") == "dump":
+            return []
         if case.get("k") == "echo":
             sim = case["sim"]
             out = []
@@ -81,6 +99,8 @@ class C31(vlib.Spec):
         return hydrob.shrink_ticks(case)
 
     def nontrivial(self, case, res):
+        if case.get("k") == "dump":
+            return True
         if case.get("k") == "echo":
             r = hydrob.sim_result(self.ctx, case).get("rounds", [])
             return sum(1 for x in r if any(x.get("emitted", []))) >= 2
@@ -91,6 +111,9 @@ class C31(vlib.Spec):
         d = {"by_flow": {}, "ticks": {}, "items": {}, "empty_ticks": 0, "sim_cases": 0, "sim_hook_kinds": {},
              "sim_rounds": 0, "sim_decisions": 0}
         for c in cases:
+            if c.get("k") == "dump":
+                d["dump_cases"] = d.get("dump_cases", 0) + 1
+                continue
             if c.get("k") == "echo":
                 d["sim_cases"] += 1
                 for h in c["sim"]["hooks"]:
